@@ -11,7 +11,10 @@ type SecurityRequirements []SecurityRequirement
 func NewSecurityRequirements(s openapi3.SecurityRequirements, schemes SecuritySchemes) ([]SecurityRequirement, error) {
 	out := make([]SecurityRequirement, 0, len(s))
 	for _, sr := range s {
-		for k, v := range sr {
+		// only the first scheme of a requirement is kept: take it in a fixed (sorted) order so that the
+		// generated code does not depend on map iteration order
+		for _, k := range sortedKeys(sr) {
+			v := sr[k]
 			ss, err := NewSecurityRequirement(k, v, schemes)
 			if err != nil {
 				return nil, fmt.Errorf("new security requirements %q: %w", k, err)
